@@ -32,6 +32,26 @@ Inductive CtxChange (s : State) (o : Op) (c : CtxId) (rc rc' : Ctx) : Prop :=
     o = ORespond r who code out ov ok -> rid_ctx r = c -> get r (reqs s) = Some q ->
     (rc' = setc_bresp rc (c_bresp rc + 1)
      \/ rc' = setc_bdone (setc_bresp rc (c_bresp rc + 1)) true) ->
+    CtxChange s o c rc rc'
+(* the keeper API driven by the module that owns the context: the same transitions, for
+   contexts WITH a module name, plus the only change of the response threshold there is *)
+| CC_mod_update who provs thr cap timeout freq total capo :
+    o = OModUpdate c who provs thr cap timeout freq total -> who = c_cons rc -> c_mod rc <> 0 ->
+    c_state rc <> Completed ->
+    (if thr =? 0 then c_thr rc else thr) <= len (match provs with [] => c_provs rc | _ => provs end) ->
+    rc' = upd_ctx (with_thr rc (if thr =? 0 then c_thr rc else thr)) provs capo timeout freq total ->
+    CtxChange s o c rc rc'
+| CC_mod_pause who :
+    o = OModPause c who -> who = c_cons rc -> c_mod rc <> 0 ->
+    c_rep rc = true -> c_state rc = Running -> rc' = setc_state rc Paused ->
+    CtxChange s o c rc rc'
+| CC_mod_start who :
+    o = OModStart c who -> who = c_cons rc -> c_mod rc <> 0 ->
+    c_state rc = Paused -> rc' = setc_state rc Running ->
+    CtxChange s o c rc rc'
+| CC_mod_kill who :
+    o = OModKill c who -> who = c_cons rc -> c_mod rc <> 0 ->
+    c_rep rc = true -> rc' = setc_state rc Completed ->
     CtxChange s o c rc rc'.
 
 Lemma get_put s sm c c0 rc0 : SEq s sm ->
@@ -87,6 +107,27 @@ Proof.
     injection Erc' as <-. assert (rc0 = rc) by congruence. subst rc0.
     eapply CC_update; eauto.
   - exfalso. eapply Hne. reflexivity.
+  - destruct Hwf as (_ & Hown). pose proof Hown as Hown'. apply h_mod_update_spec in H; [|exact Hown].
+    destruct H as (rc0 & capo & Erc0 & Hw & Hm & Hst & _ & _ & _ & _ & _ & Hthr & ->).
+    rewrite (get_put s) in Erc' by apply SEq_refl.
+    destruct (eqb_spec c c0) as [->|Hn]; [|apply CC_same; congruence].
+    injection Erc' as <-. assert (rc0 = rc) by congruence. subst rc0.
+    eapply CC_mod_update; eauto.
+  - apply h_mod_pause_spec in H. destruct H as (rc0 & Erc0 & Hw & Hrep & Hr & ->).
+    rewrite (get_put s) in Erc' by apply SEq_refl.
+    destruct (eqb_spec c c0) as [->|Hn]; [|apply CC_same; congruence].
+    injection Erc' as <-. assert (rc0 = rc) by congruence. subst rc0.
+    eapply CC_mod_pause; eauto.
+  - apply h_mod_start_spec in H. destruct H as (rc0 & Erc0 & Hw & Hp & ->).
+    rewrite ctxs_started, get_set in Erc'.
+    destruct (eqb_spec c c0) as [->|Hn]; [|apply CC_same; congruence].
+    injection Erc' as <-. assert (rc0 = rc) by congruence. subst rc0.
+    eapply CC_mod_start; eauto.
+  - apply h_mod_kill_spec in H. destruct H as (rc0 & Erc0 & Hw & Hrep & ->).
+    rewrite (get_put s) in Erc' by apply SEq_refl.
+    destruct (eqb_spec c c0) as [->|Hn]; [|apply CC_same; congruence].
+    injection Erc' as <-. assert (rc0 = rc) by congruence. subst rc0.
+    eapply CC_mod_kill; eauto.
 Qed.
 
 (* ------------------------------------------------------------------ *)
@@ -108,10 +149,14 @@ Proof.
   intros Hcfg HI Hwf Hne H Erc Erc'.
   destruct (msg_ctx_change _ _ _ _ _ _ _ Hcfg HI Hwf Hne H Erc Erc')
     as [->|who ok _ _ _ _ _ ->|who ok _ _ _ _ ->|who ok _ _ _ _ ->
-        |who provs cap timeout freq total ok capo _ _ _ _ ->|r who code out ov ok q _ _ _ [->| ->]];
+        |who provs cap timeout freq total ok capo _ _ _ _ ->|r who code out ov ok q _ _ _ [->| ->]
+        |who provs thr cap timeout freq total capo _ _ _ _ _ ->
+        |who _ _ _ _ _ ->|who _ _ _ _ ->|who _ _ _ _ ->];
     try (unfold static_eq; cbn; auto 10; fail).
-  pose proof (upd_ctx_fixed rc provs capo timeout freq total) as Hf. cbv zeta in Hf.
-  unfold static_eq. tauto.
+  - pose proof (upd_ctx_fixed rc provs capo timeout freq total) as Hf. cbv zeta in Hf.
+    unfold static_eq. tauto.
+  - pose proof (upd_thr_fixed rc (if thr =? 0 then c_thr rc else thr) provs capo timeout freq total) as Hf.
+    cbv zeta in Hf. unfold static_eq. tauto.
 Qed.
 
 Theorem C09_static_expire_one cfg s c c' rc rc' :
@@ -159,6 +204,19 @@ Definition terms_only (rc rc' : Ctx) : Prop :=
   /\ c_bdone rc' = c_bdone rc /\ c_state rc' = c_state rc /\ c_thr rc' = c_thr rc
   /\ c_mod rc' = c_mod rc.
 
+(* the same, and the response threshold: what the owning module may change through the keeper API.
+   The per-batch copy c_bthr is NOT among the fields that may differ. *)
+Definition terms_thr_only (rc rc' : Ctx) : Prop :=
+  c_svc rc' = c_svc rc /\ c_cons rc' = c_cons rc /\ c_input rc' = c_input rc
+  /\ c_super rc' = c_super rc /\ c_rep rc' = c_rep rc /\ c_counter rc' = c_counter rc
+  /\ c_breq rc' = c_breq rc /\ c_bresp rc' = c_bresp rc /\ c_bthr rc' = c_bthr rc
+  /\ c_bdone rc' = c_bdone rc /\ c_state rc' = c_state rc
+  /\ c_mod rc' = c_mod rc.
+
+(* the response threshold after UpdateRequestContext(…, thr, …) by the owning module: 0 = keep *)
+Definition new_thr (rc : Ctx) (thr : Z) : Z :=
+  let t := if thr =? 0 then c_thr rc else thr in if 0 <? t then t else c_thr rc.
+
 (* only the response count / batch state of the current batch may differ *)
 Definition batch_only (rc rc' : Ctx) : Prop :=
   rc' = setc_bdone (setc_bresp rc (c_bresp rc')) (c_bdone rc').
@@ -178,13 +236,27 @@ Theorem C09_transition_msg cfg s o s' c rc rc' :
         /\ c_state rc <> Completed /\ terms_only rc rc')
   \/ (exists r who code out ov ok q,
         o = ORespond r who code out ov ok /\ rid_ctx r = c /\ get r (reqs s) = Some q
-        /\ batch_only rc rc').
+        /\ batch_only rc rc')
+  \/ (exists provs thr cap timeout freq total,
+        o = OModUpdate c (c_cons rc) provs thr cap timeout freq total /\ c_mod rc <> 0
+        /\ c_state rc <> Completed /\ terms_thr_only rc rc'
+        /\ c_thr rc' = new_thr rc thr
+        /\ (if thr =? 0 then c_thr rc else thr)
+            <= len (match provs with [] => c_provs rc | _ => provs end))
+  \/ (o = OModPause c (c_cons rc) /\ c_mod rc <> 0 /\ c_rep rc = true
+      /\ c_state rc = Running /\ rc' = setc_state rc Paused)
+  \/ (o = OModStart c (c_cons rc) /\ c_mod rc <> 0
+      /\ c_state rc = Paused /\ rc' = setc_state rc Running)
+  \/ (o = OModKill c (c_cons rc) /\ c_mod rc <> 0 /\ c_rep rc = true
+      /\ rc' = setc_state rc Completed).
 Proof.
   intros Hcfg HI Hwf Hne H Erc Erc' Hd.
   destruct (msg_ctx_change _ _ _ _ _ _ _ Hcfg HI Hwf Hne H Erc Erc')
     as [E|who ok -> -> Hm Hrep Hr ->|who ok -> -> Hm Hp ->|who ok -> -> Hm Hrep ->
         |who provs cap timeout freq total ok capo -> -> Hm Hst ->
-        |r who code out ov ok q -> Hc Hq Hrc'].
+        |r who code out ov ok q -> Hc Hq Hrc'
+        |who provs thr cap timeout freq total capo -> -> Hm Hst Hthr ->
+        |who -> -> Hm Hrep Hr ->|who -> -> Hm Hp ->|who -> -> Hm Hrep ->].
   - contradiction.
   - left. eauto 10.
   - right; left. eauto 10.
@@ -192,9 +264,15 @@ Proof.
   - right; right; right; left. exists provs, cap, timeout, freq, total, ok.
     repeat split; try assumption;
       pose proof (upd_ctx_fixed rc provs capo timeout freq total) as Hf; cbv zeta in Hf; tauto.
-  - right; right; right; right. exists r, who, code, out, ov, ok, q.
+  - right; right; right; right; left. exists r, who, code, out, ov, ok, q.
     repeat split; try assumption. unfold batch_only.
     destruct Hrc' as [->| ->]; destruct rc; reflexivity.
+  - do 5 right; left. exists provs, thr, cap, timeout, freq, total.
+    pose proof (upd_thr_fixed rc (if thr =? 0 then c_thr rc else thr) provs capo timeout freq total) as Hf.
+    cbv zeta in Hf. unfold terms_thr_only, new_thr. repeat split; try assumption; tauto.
+  - do 6 right; left. auto 10.
+  - do 7 right; left. auto 10.
+  - do 8 right. auto 10.
 Qed.
 
 Theorem C09_completed_final_msg cfg s o s' c rc rc' :
@@ -209,7 +287,9 @@ Proof.
   destruct (msg_ctx_change _ _ _ _ _ _ _ Hcfg HI Hwf Hne H Erc Erc')
     as [->|who ok _ _ _ _ Hr _|who ok _ _ _ Hp _|who ok _ _ _ _ ->
         |who provs cap timeout freq total ok capo _ _ _ Hst _
-        |r who code out ov ok q _ _ _ [->| ->]];
+        |r who code out ov ok q _ _ _ [->| ->]
+        |who provs thr cap timeout freq total capo _ _ _ Hst _ _
+        |who _ _ _ _ Hr _|who _ _ _ Hp _|who _ _ _ _ ->];
     try congruence; cbn; auto 10.
 Qed.
 
@@ -241,9 +321,13 @@ Proof.
   intros Hcfg HI Hwf Hne H Erc Erc'.
   destruct (msg_ctx_change _ _ _ _ _ _ _ Hcfg HI Hwf Hne H Erc Erc')
     as [->|who ok _ _ _ _ _ ->|who ok _ _ _ _ ->|who ok _ _ _ _ ->
-        |who provs cap timeout freq total ok capo _ _ _ _ ->|r who code out ov ok q _ _ _ [->| ->]];
+        |who provs cap timeout freq total ok capo _ _ _ _ ->|r who code out ov ok q _ _ _ [->| ->]
+        |who provs thr cap timeout freq total capo _ _ _ _ _ ->
+        |who _ _ _ _ _ ->|who _ _ _ _ ->|who _ _ _ _ ->];
     try reflexivity.
-  pose proof (upd_ctx_fixed rc provs capo timeout freq total) as Hf. cbv zeta in Hf. tauto.
+  - pose proof (upd_ctx_fixed rc provs capo timeout freq total) as Hf. cbv zeta in Hf. tauto.
+  - pose proof (upd_thr_fixed rc (if thr =? 0 then c_thr rc else thr) provs capo timeout freq total) as Hf.
+    cbv zeta in Hf. tauto.
 Qed.
 
 (* the expiry handler never changes a batch counter; a one-shot context whose
@@ -371,6 +455,37 @@ Proof.
     destruct Hx; congruence.
 Qed.
 
+(* the same three statements for the keeper API driven by the owning module *)
+Theorem C11_mod_pause_spec s c who s' : h_mod_pause s c who = Ok s' ->
+  expq s' = expq s /\ expq_h s' = expq_h s /\ newq s' = newq s /\ newq_h s' = newq_h s.
+Proof.
+  intros H. apply h_mod_pause_spec in H. destruct H as (rc & _ & _ & _ & _ & ->). auto.
+Qed.
+
+Theorem C11_mod_start_spec s c who s' : h_mod_start s c who = Ok s' ->
+  expq s' = expq s /\ expq_h s' = expq_h s
+  /\ (   (has c (expq_h s) = false /\ has c (newq_h s) = false
+          /\ newq s' = ladd (height s, c) (newq s) /\ newq_h s' = set c (height s) (newq_h s))
+      \/ ((has c (expq_h s) = true \/ has c (newq_h s) = true)
+          /\ newq s' = newq s /\ newq_h s' = newq_h s)).
+Proof.
+  intros H. apply h_mod_start_spec in H. destruct H as (rc & _ & _ & _ & ->). unfold started.
+  destruct (has c (expq_h s)), (has c (newq_h s)); cbn [negb andb]; sproj; auto 10.
+Qed.
+
+Theorem C11_mod_start_newq s c who s' : h_mod_start s c who = Ok s' ->
+  forall h c', In (h, c') (newq s') <->
+    (In (h, c') (newq s)
+     \/ (c' = c /\ h = height s /\ has c (expq_h s) = false /\ has c (newq_h s) = false)).
+Proof.
+  intros H h c'. destruct (C11_mod_start_spec _ _ _ _ H) as (_ & _ & [(He & Hn & -> & _)|(Hx & -> & _)]).
+  - rewrite In_ladd. split.
+    + intros [E|Hin]; [injection E as -> ->; auto|auto].
+    + intros [Hin|(-> & -> & _)]; auto.
+  - split; [auto|]. intros [Hin|(_ & _ & He & Hn)]; [exact Hin|].
+    destruct Hx; congruence.
+Qed.
+
 (* ------------------------------------------------------------------ *)
 (* Examples: the hypotheses of the theorems above are satisfiable on a concrete
    reachable history (define, bind, repeated call, EndBlock issuing a batch,
@@ -457,6 +572,52 @@ Module Ex.
   Example C09_transition_msg_ex_respond :
     msg_hyps s_b (ORespond (c0, 1, 1, 0) 10 200 1 true true) c0.
   Proof. msg_ex reach_b. Qed.
+
+  (* the same context created by the module 77 (threshold 1, two providers named), driven by it *)
+  Definition ops_mrun : list Op :=
+    [ODefine 5 1 true; OBind 5 10 (CBase 100) (Some (mkRaw 10 [] [])) 5 7 true;
+     OModCall c0 5 [10; 11] 2 0 (CBase 50) 5 false true 10 3 1 77 true].
+  Definition s_mrun : State := run cfg0 s_init ops_mrun.
+  Definition s_mpi : State := run cfg0 s_init (ops_mrun ++ [OModPause c0 2; OEndBlock 1]).
+  Definition s_mb : State := run cfg0 s_init (ops_mrun ++ [OEndBlock 1]).
+
+  Ltac comp_own := vm_compute; repeat split; try reflexivity; try discriminate;
+                   try (intuition discriminate);
+                   try (let rc := fresh in let E := fresh in intros rc E; injection E as <-; discriminate).
+
+  Example reach_mrun : Reach cfg0 s_mrun.
+  Proof. apply Reach_run; [exact reach_init|comp]. Qed.
+  Example reach_mpi : Reach cfg0 s_mpi.
+  Proof. apply Reach_run; [exact reach_init|comp_own]. Qed.
+  Example reach_mb : Reach cfg0 s_mb.
+  Proof. apply Reach_run; [exact reach_init|comp]. Qed.
+
+  Ltac mod_ex Hreach :=
+    split; [exact wf_cfg0|]; split; [exact Hreach|]; split; [comp_own|];
+    split; [intros; discriminate|];
+    eexists; eexists; eexists;
+    split; [vm_compute; reflexivity|]; split; [vm_compute; reflexivity|];
+    split; [vm_compute; reflexivity|discriminate].
+
+  Example C09_transition_msg_ex_mod_pause : msg_hyps s_mrun (OModPause c0 2) c0.
+  Proof. mod_ex reach_mrun. Qed.
+  Example C09_transition_msg_ex_mod_start : msg_hyps s_mpi (OModStart c0 2) c0.
+  Proof. mod_ex reach_mpi. Qed.
+  Example C09_transition_msg_ex_mod_kill : msg_hyps s_mb (OModKill c0 2) c0.
+  Proof. mod_ex reach_mb. Qed.
+  (* the threshold goes from 1 to 2 while batch 1 (recorded threshold 1) is in flight *)
+  Example C09_transition_msg_ex_mod_update :
+    msg_hyps s_mb (OModUpdate c0 2 [] 2 CEmpty 0 0 0) c0.
+  Proof. mod_ex reach_mb. Qed.
+  Example C09_mod_update_thr_ex :
+    exists s' rc', handle cfg0 s_mb (OModUpdate c0 2 [] 2 CEmpty 0 0 0) = Ok s'
+      /\ get c0 (ctxs s') = Some rc' /\ c_thr rc' = 2 /\ c_bthr rc' = 1.
+  Proof. eexists; eexists. split; [vm_compute; reflexivity|]. split; [vm_compute; reflexivity|]. split; reflexivity. Qed.
+  (* a message cannot do that to a module context *)
+  Example C09_msg_refused_on_module_ctx :
+    handle cfg0 s_mb (OPause c0 2 true) = Err
+    /\ handle cfg0 s_mb (OUpdateCtx c0 2 [] CEmpty 0 20 0 true) = Err.
+  Proof. split; vm_compute; reflexivity. Qed.
 
   (* C09_completed_final_msg: a killed context with a batch in flight is answered *)
   Example C09_completed_final_msg_ex :
